@@ -112,10 +112,15 @@ fn ms_roundtrip<Ctx: Cx>(rep: &Report, ctx: &'static str, n: usize, alpha: Alpha
                 });
             };
             let refs = t.print();
-            if shown != refs {
-                viol("display-differs-from-grammar", format!("display '{}' reference '{}'", shown, refs));
+            // The property does not prescribe a spelling (which aliases / sugar the formatter picks);
+            // it requires that every spelling parses to the same object. The reference printer's
+            // spelling is therefore parsed as a third form, and equality of the strings is only counted.
+            if shown == refs {
+                bump(&mut cen, "display_equals_reference_printer");
+            } else {
+                bump(&mut cen, "display_differs_from_reference_printer");
             }
-            for (form, s) in [("display", shown.clone()), ("explicit", t.print_explicit())] {
+            for (form, s) in [("display", shown.clone()), ("explicit", t.print_explicit()), ("reference", refs.clone())] {
                 match guard(|| Miniscript::<String, Ctx>::from_str_with_validation_params(&s, &ValidationParams::MAX)) {
                     Ok(Ok(p)) => {
                         let w = walk(&p);
@@ -240,14 +245,25 @@ fn desc_roundtrip(rep: &Report, cen: &mut Census) -> Vec<String> {
             });
         };
         let shown = real.to_string();
-        if shown != with_cs {
-            viol("display", format!("display '{}' reference '{}'", shown, with_cs));
+        // the spelling is not prescribed; the printed checksum must be the BIP-380 checksum of the printed body
+        match shown.split_once('#') {
+            Some((b, cs)) => {
+                if descsum_create(b).as_deref() != Some(cs) {
+                    viol("checksum-not-bip380", format!("display '{}' carries a checksum that is not the BIP-380 checksum of its body", shown));
+                }
+            }
+            None => viol("display-without-checksum", format!("display '{}' has no checksum", shown)),
         }
         let alt = format!("{:#}", real);
-        if alt != body {
-            viol("display-alt", format!("alternate display '{}' reference '{}'", alt, body));
+        if alt.contains('#') {
+            viol("display-alt", format!("alternate display '{}' carries a checksum", alt));
         }
-        for s in [shown.clone(), alt.clone()] {
+        if shown == with_cs && alt == body {
+            bump(cen, "display_equals_reference_printer");
+        } else {
+            bump(cen, "display_differs_from_reference_printer");
+        }
+        for s in [shown.clone(), alt.clone(), with_cs.clone(), body.clone()] {
             match guard(|| Descriptor::<String>::from_str(&s)) {
                 Ok(Ok(p)) => {
                     if walk_desc(&p) != d {
@@ -295,8 +311,10 @@ fn policy_roundtrip(rep: &Report, cen: &mut Census, tier: Tier) {
                 case: json!({"model": p.sexpr(), "display": s}),
             });
         };
-        if s != refs {
-            viol("display", format!("display '{}' reference '{}'", s, refs));
+        if s == refs {
+            bump(cen, "display_equals_reference_printer");
+        } else {
+            bump(cen, "display_differs_from_reference_printer");
         }
         match guard(|| Semantic::<String>::from_str(&s)) {
             Ok(Ok(q)) => {
@@ -361,8 +379,10 @@ fn policy_roundtrip(rep: &Report, cen: &mut Census, tier: Tier) {
                         case: json!({"model": p.sexpr(), "display": s}),
                     });
                 };
-                if s != p.sexpr() {
-                    viol("display", format!("display '{}' reference '{}'", s, p.sexpr()));
+                if s == p.sexpr() {
+                    bump(cen, "display_equals_reference_printer");
+                } else {
+                    bump(cen, "display_differs_from_reference_printer");
                 }
                 match guard(|| Concrete::<String>::from_str(&s)) {
                     Ok(Ok(q)) => {
